@@ -13,6 +13,7 @@
 -/
 import Golib.Value.Facts
 import Golib.Value.DecWF
+import Golib.Value.MapRefine
 
 namespace C02
 open Value Prim
@@ -100,6 +101,42 @@ theorem decoded_is_wellformed (f : Nat) (bs : Bytes) (v : Value) (r : Bytes)
 theorem decode_normalises (bs : Bytes) (v : Value) (r r' : Bytes) (h : decode bs = some (v, r)) (hb : WFB bs) :
     decode (encV v ++ r') = some (v, r') := decode_stable bs v r r' h hb
 
+/-! ### the association lists are what the real tables hold (link to C09) -/
+
+/-- `MapValue.Read` creates a `StringKeyLinkedMap` and `Put`s the decoded pairs in order.  For every
+    hash function, growth policy and initial capacity, C09's bucket-table model driven by exactly
+    that history abstracts to the entry list the model's decoder returns, and enumerating it
+    (`Keys()` + `Get`, what `Write` / `Equals` / `CompareTo` walk) yields that list.  The
+    "maps are insertion-ordered association lists" abstraction is therefore a theorem
+    (C09.refine_run_from + `putKV` = the dictionary's put), not an assumption. -/
+theorem map_read_is_table_history (hash : Bytes → Nat) (thr : Nat → Nat) (d : HMap.Desc Bytes Value)
+    (hr : ∀ k, d.refuse k = false) (cap f n : Nat) (bs : Bytes) (res : List (Bytes × Value)) (r : Bytes)
+    (h : decKVs f n [] bs = some (res, r)) :
+    ∃ pairs : List (Bytes × Value), pairs.length = n ∧
+      HMap.LMap.abs hash (HMap.LMap.run hash thr d (HMap.LMap.new thr cap) (readOps pairs)).1 = { ents := res, max := 0 } ∧
+      (HMap.LMap.step hash thr d (HMap.LMap.run hash thr d (HMap.LMap.new thr cap) (readOps pairs)).1 HMap.Op.entries).2
+        = HMap.Out.ents res :=
+  map_read_refines hash thr d hr cap f n bs res r h
+
+theorem imap_read_is_table_history (hash : Int → Nat) (thr : Nat → Nat) (d : HMap.Desc Int Value)
+    (hr : ∀ k, d.refuse k = false) (cap f n : Nat) (bs : Bytes) (res : List (Int × Value)) (r : Bytes)
+    (h : decIKVs f n [] bs = some (res, r)) :
+    ∃ pairs : List (Int × Value), pairs.length = n ∧
+      HMap.LMap.abs hash (HMap.LMap.run hash thr d (HMap.LMap.new thr cap) (readOps pairs)).1 = { ents := res, max := 0 } ∧
+      (HMap.LMap.step hash thr d (HMap.LMap.run hash thr d (HMap.LMap.new thr cap) (readOps pairs)).1 HMap.Op.entries).2
+        = HMap.Out.ents res :=
+  imap_read_refines hash thr d hr cap f n bs res r h
+
+/-- any sequence of puts on a fresh table: contents, enumeration, size and lookup are those of the
+    `putKV` fold (the model's `lookupKV` is the dictionary's `get`) -/
+theorem table_is_putKV_fold {K : Type} [DecidableEq K] (hash : K → Nat) (thr : Nat → Nat) (d : HMap.Desc K Value)
+    (hr : ∀ k, d.refuse k = false) (cap : Nat) (pairs : List (K × Value)) :
+    HMap.LMap.abs hash (HMap.LMap.run hash thr d (HMap.LMap.new thr cap) (readOps pairs)).1
+      = { ents := foldPut [] pairs, max := 0 } ∧
+    (∀ k, (HMap.LMap.step hash thr d (HMap.LMap.run hash thr d (HMap.LMap.new thr cap) (readOps pairs)).1 (HMap.Op.get k)).2
+      = HMap.Out.ofVal (HMap.AL.get (foldPut [] pairs) k)) :=
+  ⟨(table_after_puts hash thr d hr cap pairs).1, (table_after_puts hash thr d hr cap pairs).2.2.2⟩
+
 /-- the type codes: pairwise distinct, `CreateValue ∘ GetValueType = id`, and conversely -/
 theorem tags_injective :
     (∀ a b : Ctor, a.code = b.code → a = b) ∧ (∀ c : Ctor, Ctor.ofCode c.code = some c) ∧
@@ -125,6 +162,8 @@ example : decode [70, 1, 2, 20, 2, 255, 127, 80, 1, 1, 1, 107, 50, 2, 104, 105, 
     some (.list [.dec (-129), .map [([107], .text [104, 105])]], [9]) := by rfl
 
 example : ¬ WFV (.map [([1], .null), ([1], .null)]) := by decide
+example : foldPut ([] : List (Bytes × Value)) [([1], .null), ([2], .bool true), ([1], .dec 5)] = [([1], .dec 5), ([2], .bool true)] := by
+  rfl
 example : Ctor.ofCode 47 = none := rfl     -- FLOAT_SUMMARY is declared but not implemented
 
 end C02
